@@ -729,7 +729,7 @@ def check_prog(case, M):
         # ---- model parser
         b = M.ask([Sym("c15.parse"), wdsl, wtr, wconsts, True, text])
         mres, mrtype = res(b[0]), res(b[1])
-        if good and goodc and mres != ("ok", dp):
+        if good and goodc and mtext == text and mres != ("ok", dp):
             raise RuntimeError(f"model round trip fails under the guards (contradicts theorem C15_program): {text!r} -> {mres}")
         # ---- implementation
         st, q = guarded(lambda: dsl.parse_program(text, tr, consts), 20)
